@@ -328,6 +328,10 @@ class ExecSuite(Suite):
         if not fails:
             if unread:
                 fails.append(f"console output left unread after the calls: {unread!r}")
+            all_legal = all(all(ord(c) >= 32 and ord(c) != 127 for a in (call[1] if call[0] != "env" else [call[1], call[2] or ""]) for c in a)
+                            for call in case["calls"])
+            if all_legal and all(r[0] in (0, 1) and len(r) <= 3 for r in results) and written != sent:
+                fails.append(f"the console received {written!r}; the calls {case['calls']!r} amount to the command lines {sent!r}")
         return fails
 
     def nontrivial(self, case, obs):
@@ -354,7 +358,10 @@ class ExecSuite(Suite):
                     if args[0] in ("run", "crc32"):
                         plan.append([rand_status(rng), rand_output(rng, prompt, crc=(args[0] == "crc32")).hex()])
                 elif k < 0.8:
-                    calls.append(["env", rand_name(rng), rand_arg(rng, nonempty=True)])
+                    nm = rand_name(rng)
+                    calls.append(["env", nm, rand_arg(rng, nonempty=True)])
+                    if rng.random() < 0.2:
+                        calls.append(["env", nm, ""])          # the empty value is a value too: it replaces the old one
                 else:
                     calls.append(["env", rand_name(rng), None])
             yield {"prompt": prompt.hex(), "accept": [rng.randint(1, 600) for _ in range(rng.randint(0, 3))],
